@@ -55,7 +55,7 @@ Variable fns : list fn.
 Lemma bridge_ref e : forall en v, exact_eval en e = Some v ->
   forall fuel out, (esize e < fuel)%nat -> eval_expr fns fuel [] en e out = Ok v out.
 Proof.
-  induction e as [z|b|s|x|o a IHa|o a IHa b IHb|f args|c IHc a IHa b IHb|es|a0 IHa0 i0 IHi0|a0 IHa0]; intros en v H fuel out Hf;
+  induction e as [z|b|s|x|o a IHa|o a IHa b IHb|f args|c IHc a IHa b IHb|es|a0 IHa0 i0 IHi0|a0 IHa0|so a0 IHa0|so a0 IHa0 b0 IHb0|a0 IHa0 b0 IHb0 c0 IHc0]; intros en v H fuel out Hf;
     (destruct fuel as [|fuel]; [simpl in Hf; lia|]); cbn [eval_expr]; cbn [exact_eval] in H; cbn [esize] in Hf.
   - apply chk_some in H. destruct H as [-> _]. reflexivity.
   - inversion H; reflexivity.
@@ -95,6 +95,9 @@ Proof.
   - discriminate.
   - discriminate.
   - discriminate.
+  - discriminate.
+  - discriminate.
+  - discriminate.
 Qed.
 End Ref.
 
@@ -103,7 +106,7 @@ Lemma bridge_nc e : forall en v v', all_scalar en -> exact_eval en e = Some v ->
   forall ne, embed_expr e = Some ne ->
   forall fuel, (esize e < fuel)%nat -> NV.NanoCore.EvalFn.eval_fn fuel (embed_env en) ne = Some (embed_env en, v').
 Proof.
-  induction e as [z|b|s|x|o a IHa|o a IHa b IHb|f args|c IHc a IHa b IHb|es|a0 IHa0 i0 IHi0|a0 IHa0]; intros en v v' Hs H Hv ne Hn fuel Hf;
+  induction e as [z|b|s|x|o a IHa|o a IHa b IHb|f args|c IHc a IHa b IHb|es|a0 IHa0 i0 IHi0|a0 IHa0|so a0 IHa0|so a0 IHa0 b0 IHb0|a0 IHa0 b0 IHb0 c0 IHc0]; intros en v v' Hs H Hv ne Hn fuel Hf;
     (destruct fuel as [|fuel]; [simpl in Hf; lia|]); cbn [exact_eval] in H; cbn [embed_expr] in Hn; cbn [esize] in Hf.
   - apply chk_some in H. destruct H as [-> _]. inversion Hn; subst. inversion Hv; subst. reflexivity.
   - inversion H; subst. inversion Hn; subst. inversion Hv; subst. reflexivity.
@@ -147,6 +150,9 @@ Proof.
     destruct (exact_eval en c) as [[|[|]| | |]|] eqn:Ec; try discriminate.
     + rewrite (IHc en _ (NV.NanoCore.Syntax.VBool true) Hs Ec eq_refl c' eq_refl) by lia. apply (IHa en v v' Hs H Hv a' eq_refl). lia.
     + rewrite (IHc en _ (NV.NanoCore.Syntax.VBool false) Hs Ec eq_refl c' eq_refl) by lia. apply (IHb en v v' Hs H Hv b' eq_refl). lia.
+  - discriminate.
+  - discriminate.
+  - discriminate.
   - discriminate.
   - discriminate.
   - discriminate.
